@@ -35,6 +35,12 @@ func sameType(a, b ast.Type) bool {
 	return toJSON(stripKey(stripTrails(toGeneric(a), nil), "Default")) == toJSON(stripKey(stripTrails(toGeneric(b), nil), "Default"))
 }
 
+// sameTypeLoose: sameType, nullability aside.
+func sameTypeLoose(a, b ast.Type) bool {
+	a.Nullable, b.Nullable = false, false
+	return sameType(a, b)
+}
+
 func stripKey(v any, key string) any {
 	switch x := v.(type) {
 	case map[string]any:
@@ -167,13 +173,21 @@ func checkValueArgs(args []ast.Argument, v ast.AssignmentValue) (string, string)
 	return "", ""
 }
 
-func checkAssignments(schemas ast.Schemas, b ast.Builder, args []ast.Argument, as []ast.Assignment, where string) (string, string) {
+func checkAssignments(schemas ast.Schemas, b ast.Builder, args []ast.Argument, as []ast.Assignment, where string, userTyped bool) (string, string) {
 	for _, a := range as {
 		if k, w := checkPath(schemas, b.For.Type, a.Path); k != "" {
 			return "path:" + k, where + ": " + w
 		}
 		if k, w := checkValueArgs(args, a.Value); k != "" {
 			return k, where + ": " + w
+		}
+		// a plain `target = argument` assignment: the argument has the target's type
+		// (nullability and defaults aside; unions are narrowed by disjunction_as_options)
+		if !userTyped && a.Method == ast.DirectAssignment && a.Value.Argument != nil && len(a.Path) > 0 {
+			target := a.Path.Last().Type
+			if a.Path.Last().TypeHint == nil && target.Kind != ast.KindDisjunction && !target.IsAny() && !sameTypeLoose(target, a.Value.Argument.Type) {
+				return "value-type", fmt.Sprintf("%s: argument %q of type %s is assigned to %s, whose type is %s", where, a.Value.Argument.Name, truncate(noTrail(a.Value.Argument.Type), 80), a.Path.String(), truncate(noTrail(target), 80))
+			}
 		}
 		for _, it := range a.Path {
 			if it.Index != nil && it.Index.Argument != nil && !argDeclared(args, it.Index.Argument) {
@@ -192,11 +206,12 @@ func checkAssignments(schemas ast.Schemas, b ast.Builder, args []ast.Argument, a
 // wellTyped evaluates invariants (i) and (ii) on a builder set.
 func wellTyped(schemas ast.Schemas, builders ast.Builders) (string, string) {
 	for _, b := range builders {
-		if k, w := checkAssignments(schemas, b, b.Constructor.Args, b.Constructor.Assignments, b.Package+"."+b.Name+" constructor"); k != "" {
+		if k, w := checkAssignments(schemas, b, b.Constructor.Args, b.Constructor.Assignments, b.Package+"."+b.Name+" constructor", false); k != "" {
 			return k, w
 		}
 		for _, o := range b.Options {
-			if k, w := checkAssignments(schemas, b, o.Args, o.Assignments, b.Package+"."+b.Name+"."+o.Name); k != "" {
+			userTyped := false
+			if k, w := checkAssignments(schemas, b, o.Args, o.Assignments, b.Package+"."+b.Name+"."+o.Name, userTyped); k != "" {
 				return k, w
 			}
 		}
@@ -645,6 +660,9 @@ func c17Check(ctx *Ctx, res *CaseResult, dir string, p *c17Payload, regen *Rand)
 			continue
 		}
 		ctx.Count("rule_applied "+kind, 1)
+		if rs.Kind == "merge_into" && !rs.Misconfigured {
+			ctx.Count(fmt.Sprintf("merge_into consistent, %d path segments", strings.Count(rs.Path, ".")+1), 1)
+		}
 		// the comparison baseline is the snapshot (a rule may write through its input)
 		var prev ast.Builders
 		if err := json.Unmarshal([]byte(beforeSnap), &prev); err != nil {
